@@ -275,6 +275,31 @@ def explore(tier, report):
                 if digest(m) != before:
                     viol(f"{ID}|invalid-input-modified-receiver|{pname}", f"state {u}: receiver changed although {pname} was rejected", {"engine": "E2", "history": hist, "probe": pname, "tier": tier})
         sch = schema_of(m)
+        if u and len(hist) <= 1 and tuple(sch) == BASE_SCHEMA:
+            # the accumulator idiom: tables appended to / concatenated with others must stay what they were
+            from acryo import Molecules as _M
+
+            for pname, build in (("empty.append(a).append(b)", lambda a, b: _M.empty().append(a).append(b)),
+                                 ("empty.concat_with(a).append(b)", lambda a, b: _M.empty().concat_with(a).append(b)),
+                                 ("a.copy().append(b).append(b2)", lambda a, b: a.copy().append(b).append(make([11]))),
+                                 ("concat([a]).append(b)", lambda a, b: _M.concat([a]).append(b)),
+                                 ("a[:].append(b)", lambda a, b: a.subset(slice(None)).append(b))):
+                a, b = make(u), make([10])
+                da_, db_ = digest(a), digest(b)
+                nprobe += 1
+                case = {"engine": "E2", "history": hist, "probe": pname, "tier": tier}
+                try:
+                    acc = build(a, b)
+                except Exception as e:  # noqa
+                    viol(f"{ID}|accumulate|{pname}|raised-{type(e).__name__}", f"a = uids {u}, b = uid 10: {type(e).__name__}: {e}", case)
+                    continue
+                if digest(a) != da_ or digest(b) != db_:
+                    which = "a" if digest(a) != da_ else "b"
+                    t = a if which == "a" else b
+                    viol(f"{ID}|accumulate|{pname}|operand-altered", f"a = uids {u}, b = uid 10: operand {which} changed: {[msg for _, msg in check_rows(t)][:1] or 'content changed'}", case)
+                want = tuple(u) + (10,) + ((11,) if "b2" in pname else ())
+                if uids_of(acc) != want or check_rows(acc):
+                    viol(f"{ID}|accumulate|{pname}|wrong-rows", f"a = uids {u}: result holds {uids_of(acc)}, expected {want}; {check_rows(acc)[:1]}", case)
         for op in ops:
             if not op["enabled"](list(u), sch):
                 continue
@@ -282,6 +307,7 @@ def explore(tier, report):
             case = {"engine": "E2", "history": hist + [name], "tier": tier}
             src = m.copy() if op["mutating"] else m
             before = digest(src)
+            before_m = digest(m)
             try:
                 new = op["fn"](src)
             except Exception as e:  # noqa
@@ -309,6 +335,9 @@ def explore(tier, report):
                         before = digest(src)
             if op["mutating"] and new is not src:
                 viol(f"{ID}|transition|{name.split('(')[0]}|mutating-op-returned-new-object", name, case)
+            if op["mutating"] and digest(m) != before_m:
+                viol(f"{ID}|transition|{name.split('(')[0]}|original-altered-through-copy", f"{name} on a copy() of the table with uids {u} (history {hist}) altered the original: {[msg for _, msg in check_rows(m)][:1] or 'content changed'}", case)
+                m = make(u) if tuple(sch) == BASE_SCHEMA else m
             got = uids_of(new)
             spec = op["model"](list(u))
             if not model_accepts(spec, got):
@@ -353,6 +382,7 @@ def replay_case(case):
                 break
             src = m.copy() if op["mutating"] else m
             before = digest(src)
+            before_m = digest(m)
             try:
                 new = op["fn"](src)
             except Exception as e:  # noqa
